@@ -211,9 +211,13 @@ def h_headcontent_name(ks: int, kt: int, s: str, t: str) -> bool:
 @harness("C18", pre=lambda B, k: 0 <= k <= 7, sel=["k: payload catalogue"], targets=["htmltools._util.hash_deterministic", "htmltools._core.head_content"])
 def h_headcontent_sha1(k: int) -> bool:
     """with the real digest: the name is 'headcontent_' + sha1(rendered content), nothing else"""
+    return concrete(_sha1_body, conc(k, 0, 7))
+
+
+def _sha1_body(k: int) -> bool:
     payloads = [("t",), (Tag("title", "x"),), ("a", HTML("<b>")), (), (Tag("style", "p{}"), None), ("é☃",),
                 ("x<y&",), (HTML("x<y&"),)]        # the same text as plain string and as HTML(): different rendered content
-    args = pick(k, payloads)
+    args = payloads[k]
     want = "headcontent_" + hashlib.sha1(TagList(*args).get_html_string().encode("utf-8")).hexdigest()
     d1, d2 = head_content(*args), head_content(*args)
     if not (d1.name == want and d2.name == want and str(d1.version) == "0.0" and d1 == d2):
